@@ -166,7 +166,42 @@ func (rn *Runner) Run() {
 	b, _ := json.Marshal(sc)
 	_ = json.Unmarshal(b, &scRaw)
 	r.Emit("begin", "t", rn.T, "scn", sc.ID, "sc", scRaw, "seterr", seterr, "dsn", dsnUsed,
-		"mailexp", sender, "rcptexp", rcpts)
+		"mailexp", sender, "rcptexp", rcpts, "mailexp2", sender, "rcptexp2", []box{{ints("rcpt"), ints("to.test")}}, "dsn2", false)
+	if sc.Kind == "dsnshare" {
+		// one smtp connection shared by two mail.Clients (DialToSMTPClientWithContext + SendWithSMTPClient): the first one
+		// uses the DSN options of the scenario, the second one none - its commands must not carry any
+		ca, err := mail.NewClient("mail.example.test", opts...)
+		if err != nil {
+			rn.Infra = err
+			return
+		}
+		cb, err := mail.NewClient("mail.example.test", mail.WithTLSPolicy(mail.NoTLS), mail.WithTimeout(20*time.Second),
+			mail.WithHELO("client.test"), mail.WithDialContextFunc(dial))
+		if err != nil {
+			rn.Infra = err
+			return
+		}
+		sc2, derr := ca.DialToSMTPClientWithContext(context.Background())
+		if derr != nil {
+			rn.Infra = derr
+			return
+		}
+		e1 := ca.SendWithSMTPClient(sc2, m)
+		r.Emit("ret", "op", "SendWithSMTPClient", "err", e1 != nil, "text", clip(e1))
+		r.Emit("handover")
+		m2 := mail.NewMsg()
+		_ = m2.From("sender@from.test")
+		_ = m2.To("rcpt@to.test")
+		m2.Subject("second client")
+		m2.SetBodyString(mail.TypeTextPlain, "body\r\n")
+		e2 := cb.SendWithSMTPClient(sc2, m2)
+		r.Emit("ret", "op", "SendWithSMTPClient", "err", e2 != nil, "text", clip(e2))
+		_ = cb.CloseWithSMTPClient(sc2)
+		srv.Wait(10 * time.Second)
+		r.Emit("end", "t", rn.T)
+		r.Seal()
+		return
+	}
 	if sc.Kind == "rawaddr" { // the smtp package used directly: Mail / Rcpt with a value that carries a line break
 		inj := map[string]string{"plain": "", "lf": ">\nRCPT TO:<smuggled@evil.test", "cr": ">\rRCPT TO:<smuggled@evil.test",
 			"crlf": ">\r\nRCPT TO:<smuggled@evil.test"}[sc.Helo]
